@@ -110,7 +110,7 @@ func Sleep(ns uint64) {
 }
 
 func MapClear[M ~map[K]V, K comparable, V any](m M) {
-	for k := range m {
-		delete(m, k)
-	}
+	// clear also removes keys that are not equal to themselves (NaN), which
+	// delete never matches
+	clear(m)
 }
